@@ -229,12 +229,12 @@ fn ref_type(n: &Node, is_int: &[bool]) -> Option<bool> {
 }
 
 /// expected outcome of `toks` over int / bool operand kinds (primary values), if the reference covers it
-fn reference_outcome(toks: &[Tok], ks: &[&OperandKind]) -> Option<Sig> {
+fn reference_outcome(toks: &[Tok], ks: &[&OperandKind], alt: usize) -> Option<Sig> {
     let mut vals = Vec::new();
     for (i, k) in ks.iter().enumerate() {
         vals.push(match k.name {
-            "int" => RV::I(alt_lit(k, i, 0).parse().ok()?),
-            "bool" => RV::B(alt_lit(k, i, 0) == "true"),
+            "int" => RV::I(alt_lit(k, i, alt).parse().ok()?),
+            "bool" => RV::B(alt_lit(k, i, alt) == "true"),
             _ => return None,
         });
     }
@@ -338,8 +338,9 @@ fn signature(interp: &Interpreter, expr: &str, ks: &[&OperandKind]) -> Sig {
 
 /// alternative operand values (alt > 0) are used to separate groupings that coincide on the primary values
 fn alt_lit(k: &OperandKind, pos: usize, alt: usize) -> &'static str {
-    const INTS: [[&str; 4]; 3] = [["7", "3", "2", "5"], ["12", "5", "3", "2"], ["100", "9", "4", "3"]];
-    const CELLS: [[&str; 4]; 3] = [["mut 7", "mut 3", "mut 2", "mut 5"], ["mut 12", "mut 5", "mut 3", "mut 2"], ["mut 100", "mut 9", "mut 4", "mut 3"]];
+    // (odd and even values in every position: `-a ** b` groups observably only for even b)
+    const INTS: [[&str; 4]; 3] = [["7", "3", "2", "5"], ["12", "4", "3", "2"], ["100", "9", "4", "3"]];
+    const CELLS: [[&str; 4]; 3] = [["mut 7", "mut 3", "mut 2", "mut 5"], ["mut 12", "mut 4", "mut 3", "mut 2"], ["mut 100", "mut 9", "mut 4", "mut 3"]];
     const BOOLS: [[&str; 4]; 3] = [["true", "false", "true", "false"], ["false", "true", "true", "false"], ["false", "false", "true", "true"]];
     match k.name {
         "int" => INTS[alt % 3][pos],
@@ -430,24 +431,42 @@ fn check(acc: &mut Acc, interp: &Interpreter, family: &str, label: &str, toks: &
     }
     // the grouping must not depend on which operands are constants: the folder regroups nothing.
     // (A constant operation that fails is reported when the program is parsed; same kind required.)
-    if matches!(s_flat, Sig::Value(_) | Sig::Error(_)) && ks.iter().all(|k| ["int", "bool", "float", "string", "array"].contains(&k.name)) {
-        for constant in 1..(1usize << ks.len()) {
-            let s_mask = signature_masked(interp, &flat_text, ks, 0, constant);
-            acc.programs += 1;
-            let same = match (&s_mask, &s_flat) {
-                (Sig::Rejected(msg), Sig::Error(kind)) => msg.starts_with(kind.as_str()),
-                (a, b) => a == b,
-            };
-            if !same {
-                let kn: Vec<&str> = ks.iter().map(|k| k.name).collect();
-                acc.violations.push(Violation {
-                    sig: format!("C14|grouping-depends-on-constant-operands|{family}|{label}|constants={constant:b}"),
-                    detail: json!({"kind": "precedence", "expression": flat_text, "operand_kinds": kn, "constant_operand_mask": format!("{constant:b}"), "all_run_time_outcome": format!("{s_flat:?}"), "with_constants_outcome": format!("{s_mask:?}")}),
-                });
+    // Every operand value set (alt): a regrouping may coincide on one set of values.
+    let plain = ks.iter().all(|k| ["int", "bool", "float", "string", "array"].contains(&k.name));
+    let has_alts = ks.iter().all(|k| ["int", "bool", "float"].contains(&k.name));
+    if matches!(s_flat, Sig::Value(_) | Sig::Error(_)) && plain {
+        for alt in 0..if has_alts { 3 } else { 1 } {
+            let s_run = if alt == 0 { s_flat.clone() } else { signature_alt(interp, &flat_text, ks, alt) };
+            if alt > 0 {
+                acc.programs += 1;
+            }
+            for constant in 1..(1usize << ks.len()) {
+                let s_mask = signature_masked(interp, &flat_text, ks, alt, constant);
+                acc.programs += 1;
+                let same = match (&s_mask, &s_run) {
+                    (Sig::Rejected(msg), Sig::Error(kind)) => msg.starts_with(kind.as_str()),
+                    (a, b) => a == b,
+                };
+                if !same {
+                    let kn: Vec<&str> = ks.iter().map(|k| k.name).collect();
+                    acc.violations.push(Violation {
+                        sig: format!("C14|grouping-depends-on-constant-operands|{family}|{label}|constants={constant:b}"),
+                        detail: json!({"kind": "precedence", "expression": flat_text, "operand_kinds": kn, "operand_values": ks.iter().enumerate().map(|(i, k)| alt_lit(k, i, alt)).collect::<Vec<_>>(), "constant_operand_mask": format!("{constant:b}"), "all_run_time_outcome": format!("{s_run:?}"), "with_constants_outcome": format!("{s_mask:?}")}),
+                    });
+                }
+            }
+            if let Some(want) = reference_outcome(toks, ks, alt) {
+                acc.anchored += 1;
+                if s_run != want {
+                    let kn: Vec<&str> = ks.iter().map(|k| k.name).collect();
+                    acc.violations.push(Violation {
+                        sig: format!("C14|value-differs-from-the-table-grouping-evaluated-by-reference|{family}|{label}"),
+                        detail: json!({"kind": "precedence", "expression": flat_text, "prescribed": table_text, "operand_kinds": kn, "operand_values": ks.iter().enumerate().map(|(i, k)| alt_lit(k, i, alt)).collect::<Vec<_>>(), "observed": format!("{s_run:?}"), "expected": format!("{want:?}")}),
+                    });
+                }
             }
         }
-    }
-    if let Some(want) = reference_outcome(toks, ks) {
+    } else if let Some(want) = reference_outcome(toks, ks, 0) {
         acc.anchored += 1;
         if s_flat != want {
             let kn: Vec<&str> = ks.iter().map(|k| k.name).collect();
